@@ -218,6 +218,62 @@ Proof.
       destruct (str_eqb k' k); [reflexivity|apply Hi].
 Qed.
 
+Lemma compute_panic_sim c s k : rel c s ->
+  rel (fst (compute_panic c k)) (fst (s_compute_panic s k)) /\
+  snd (compute_panic c k) = snd (s_compute_panic s k).
+Proof.
+  intros R. pose proof (rel_lookup c s k R) as L. pose proof R as (He & Hf & Hn & Hi).
+  unfold compute_panic, s_compute_panic.
+  destruct (alookup (index c) k) as [p|].
+  - destruct L as (n & v0 & -> & Hp & Hg & Hl). rewrite Hg, Hl; cbn.
+    split; [exact R|reflexivity].
+  - destruct L as (Hp & Hl). rewrite Hl, <- Hf. destruct (frozen c); cbn;
+      (split; [exact R|reflexivity]).
+Qed.
+
+(* a key other than the one put answers as before *)
+Lemma s_put_lookup_other s k2 v2 k : k <> k2 -> s_lookup (sents s) k = None ->
+  s_lookup (sents (fst (s_put s k2 v2))) k = None.
+Proof.
+  intros Hne Hl. unfold s_put. destruct (sfrozen s); cbn; [exact Hl|].
+  destruct (s_lookup (sents s) k2) as [old|] eqn:E2; cbn.
+  - clear E2. induction (sents s) as [|[k0 v0] r IH]; cbn in *; [reflexivity|].
+    destruct (str_eqb_spec k2 k0) as [->|Hn]; cbn.
+    + destruct (str_eqb_spec k k0); [congruence|exact Hl].
+    + destruct (str_eqb k k0); [discriminate|auto].
+  - induction (sents s) as [|[k0 v0] r IH]; cbn in *.
+    + destruct (str_eqb_spec k k2); [congruence|reflexivity].
+    + destruct (str_eqb k k0); [discriminate|]. destruct (str_eqb k2 k0); [discriminate|auto].
+Qed.
+
+Lemma lookup_none_pos c s k : rel c s -> s_lookup (sents s) k = None -> pos k (entries c) = None.
+Proof.
+  intros (He & _) Hl. destruct (pos k (entries c)) as [n|] eqn:E; [|reflexivity].
+  destruct (pos_some _ _ _ E) as [v [_ H2]]. rewrite He in H2. congruence.
+Qed.
+
+Lemma compute_put_sim c s k v k2 v2 : rel c s -> k <> k2 ->
+  rel (fst (compute_put c k v k2 v2)) (fst (s_compute_put s k v k2 v2)) /\
+  snd (compute_put c k v k2 v2) = snd (s_compute_put s k v k2 v2).
+Proof.
+  intros R Hne. pose proof (rel_lookup c s k R) as L. pose proof R as (He & Hf & Hn & Hi).
+  unfold compute_put, s_compute_put.
+  destruct (alookup (index c) k) as [p|].
+  - destruct L as (n & v0 & -> & Hp & Hg & Hl). rewrite Hg, Hl; cbn. split; [exact R|reflexivity].
+  - destruct L as (Hp & Hl). rewrite Hl, <- Hf. destruct (frozen c) eqn:Fz; cbn [fst snd].
+    { split; [exact R|reflexivity]. }
+    destruct (put_sim c s k2 v2 R) as [R1 Ho].
+    pose proof (s_put_lookup_other s k2 v2 k Hne Hl) as Hl1.
+    destruct (put c k2 v2) as [c1 o1] eqn:Ec; destruct (s_put s k2 v2) as [s1 o1'] eqn:Es; cbn [fst snd] in *.
+    subst o1'. pose proof (lookup_none_pos c1 s1 k R1 Hl1) as Hp1. destruct R1 as (He1 & Hf1 & Hn1 & Hi1).
+    destruct o1; cbn [fst snd]; try (split; [repeat split; assumption|reflexivity]).
+    split; [|reflexivity]. repeat split; cbn.
+    + now rewrite He1.
+    + rewrite map_app; cbn. apply nodup_snoc; auto using pos_none_notin.
+    + intros k'. rewrite pos_app_new by assumption. unfold aset; cbn.
+      destruct (str_eqb k' k); [reflexivity|apply Hi1].
+Qed.
+
 Lemma delete_sim c s k : rel c s ->
   rel (fst (delete c k)) (fst (s_delete s k)) /\ snd (delete c k) = snd (s_delete s k).
 Proof.
@@ -342,11 +398,11 @@ Ltac obj hp sp i H c s R :=
   destruct (nth_error hp i) as [c|], (nth_error sp i) as [s|]; try contradiction;
   [|split; [assumption|reflexivity]].
 
-Lemma step_sim hp sp o : hrel hp sp ->
+Lemma step_sim hp sp o : hrel hp sp -> op_ok o = true ->
   hrel (fst (step hp o)) (fst (s_step sp o)) /\ snd (step hp o) = snd (s_step sp o).
 Proof.
-  intros H. pose proof (hrel_len _ _ H) as Hlen.
-  destruct o as [|i k v|i k|i k|i k d|i k|i k v|i|i j|i j|i|i|i|i|i|i|i|i j]; cbn [step s_step].
+  intros H Hok. pose proof (hrel_len _ _ H) as Hlen.
+  destruct o as [|i k v|i k|i k|i k d|i k|i k v|i|i j|i j|i|i|i|i|i|i|i|i j|i k|i k v k2 v2]; cbn [step s_step].
   - cbn. split; [apply hrel_snoc; auto using rel_empty|now rewrite Hlen].
   - obj hp sp i H c s R. destruct (put_sim c s k v R) as [R' Ho].
     unfold upd, s_upd; cbn. split; [now apply hrel_set|assumption].
@@ -377,21 +433,27 @@ Proof.
   - obj hp sp i H c s R. destruct R as (He & _). cbn. rewrite He. split; [assumption|reflexivity].
   - obj hp sp i H c s R. destruct R as (He & Hf & _). cbn. rewrite Hf. split; [assumption|reflexivity].
   - obj hp sp i H c s R. obj hp sp j H c' s' R'. cbn. split; [assumption|now apply equals_sim].
+  - obj hp sp i H c s R. destruct (compute_panic_sim c s k R) as [R' Ho].
+    unfold upd, s_upd; cbn. split; [now apply hrel_set|assumption].
+  - obj hp sp i H c s R. cbn [op_ok] in Hok. apply negb_true_iff, str_eqb_neq in Hok.
+    destruct (compute_put_sim c s k v k2 v2 R Hok) as [R' Ho].
+    unfold upd, s_upd; cbn. split; [now apply hrel_set|assumption].
 Qed.
 
-Lemma run_sim ops : forall hp sp, hrel hp sp ->
+Lemma run_sim ops : forall hp sp, hrel hp sp -> ops_ok ops = true ->
   hrel (fst (run hp ops)) (fst (s_run sp ops)) /\ snd (run hp ops) = snd (s_run sp ops).
 Proof.
-  induction ops as [|o r IH]; cbn; intros hp sp H; [auto|].
-  destruct (step_sim hp sp o H) as [H' Ho].
+  induction ops as [|o r IH]; cbn [run s_run]; intros hp sp H Hok; [auto|].
+  unfold ops_ok in Hok. cbn [forallb] in Hok. apply andb_true_iff in Hok as [Hok Hokr].
+  destruct (step_sim hp sp o H Hok) as [H' Ho].
   destruct (step hp o) as [hp' x]; destruct (s_step sp o) as [sp' x']; cbn in *. subst x'.
-  destruct (IH hp' sp' H') as [H'' Ho'].
+  destruct (IH hp' sp' H' Hokr) as [H'' Ho'].
   destruct (run hp' r) as [hp'' xs]; destruct (s_run sp' r) as [sp'' xs']; cbn in *.
   split; [assumption|congruence].
 Qed.
 
-Theorem stringhash_refines ops : snd (run [] ops) = snd (s_run [] ops).
-Proof. apply (run_sim ops [] []). constructor. Qed.
+Theorem stringhash_refines ops : ops_ok ops = true -> snd (run [] ops) = snd (s_run [] ops).
+Proof. intros Hok. apply (run_sim ops [] []); [constructor|exact Hok]. Qed.
 
 (* ---- consequences, stated on the abstract map ---- *)
 
@@ -413,12 +475,23 @@ Proof. unfold s_delete. destruct (sfrozen h); [reflexivity|]. destruct (s_lookup
 Lemma s_compute_no_fault h k v : is_fault (snd (s_compute h k v)) = false.
 Proof. unfold s_compute. destruct (s_lookup _ _); [reflexivity|]. destruct (sfrozen h); reflexivity. Qed.
 
+Lemma s_compute_panic_no_fault h k : is_fault (snd (s_compute_panic h k)) = false.
+Proof. unfold s_compute_panic. destruct (s_lookup _ _); [reflexivity|]. destruct (sfrozen h); reflexivity. Qed.
+
+Lemma s_compute_put_no_fault h k v k2 v2 : is_fault (snd (s_compute_put h k v k2 v2)) = false.
+Proof.
+  unfold s_compute_put. destruct (s_lookup _ _); [reflexivity|]. destruct (sfrozen h); [reflexivity|].
+  pose proof (s_put_no_fault h k2 v2) as Hp. destruct (s_put h k2 v2) as [h1 o]; cbn in *.
+  destruct o; cbn in *; auto.
+Qed.
+
 Lemma s_step_no_fault sp o : is_fault (snd (s_step sp o)) = false.
 Proof.
   destruct o; cbn [s_step]; unfold s_with, s_upd;
     repeat match goal with |- context [nth_error sp ?i] => destruct (nth_error sp i) end;
     cbn [snd fst is_fault]; try reflexivity;
-    auto using s_put_no_fault, s_delete_no_fault, s_compute_no_fault, s_put_all_no_fault.
+    auto using s_put_no_fault, s_delete_no_fault, s_compute_no_fault, s_put_all_no_fault,
+      s_compute_panic_no_fault, s_compute_put_no_fault.
   match goal with |- context [s_put_all ?a ?b] =>
     pose proof (s_put_all_no_fault b a) as Hp; destruct (s_put_all a b) as [m0 o0] end.
   cbn in *. destruct o0; cbn in *; auto.
@@ -432,9 +505,9 @@ Proof.
   destruct (s_run sp' r) as [sp'' xs]; cbn in *. now rewrite Hs, IH.
 Qed.
 
-Theorem stringhash_never_faults ops :
+Theorem stringhash_never_faults ops : ops_ok ops = true ->
   forallb (fun o => negb (is_fault o)) (snd (run [] ops)) = true.
-Proof. rewrite stringhash_refines. apply s_run_no_fault. Qed.
+Proof. intros Hok. rewrite stringhash_refines by exact Hok. apply s_run_no_fault. Qed.
 
 (* deletion removes exactly the given key and keeps every other entry reachable *)
 Lemma s_lookup_remove_other es k k' : k' <> k -> s_lookup (s_remove es k) k' = s_lookup es k'.
@@ -482,7 +555,18 @@ Proof.
 Qed.
 
 (* every reachable concrete hash satisfies the coupling invariant *)
-Theorem stringhash_inv ops : exists sp, hrel (fst (run [] ops)) sp.
+Theorem stringhash_inv ops : ops_ok ops = true -> exists sp, hrel (fst (run [] ops)) sp.
 Proof.
-  exists (fst (s_run [] ops)). apply (run_sim ops [] []). constructor.
+  intros Hok. exists (fst (s_run [] ops)). apply (run_sim ops [] []); [constructor|exact Hok].
+Qed.
+
+(* the guard is needed: a mapping function that puts the computed key itself leaves the hash with two entries for
+   it (stringhash.go:136-138 appends without looking again); Delete then removes the second one and the index
+   entry, so that Keys still lists the key while Includes denies it *)
+Lemma compute_producer_puts_same_key_refuted :
+  exists ops, ops_ok ops = false /\
+    snd (run [] ops) = [RObj 0; RVal (Some 6); RKeys [[97%N]; [97%N]]; RVal (Some 6); RKeys [[97%N]]; RBool false].
+Proof.
+  exists [ONew; OComputePut 0 [97%N] 6 [97%N] 5; OKeys 0; ODelete 0 [97%N]; OKeys 0; OIncludes 0 [97%N]].
+  vm_compute. auto.
 Qed.
